@@ -13,6 +13,9 @@ RULE = (
     "{1,2,2,3,4,4,6}; Main+GLB, or Main+GLB+Reg for one Einsum; finite throughputs on every action, leak powers, "
     "GLB sized around the tensor sizes; half of the architectures use a fast-but-dear Main over a slow-but-cheap GLB so "
     "energy and latency pull apart; 1-bit values are avoided and capacities are n values + half a value, see vf/gen/spec.py). "
+    "Two slots in three come from a 'balanced' family instead: one or two matmuls (bounds 4-8, or 2-4 for two) on Main -> "
+    "bypassable GLB -> MAC where Main's read and write energies differ by an order of magnitude, Main is fast and the GLB "
+    "slow, so the energy-latency front has several points and its best energy x latency is often an interior point. "
     "Each spec is mapped five times: metrics ENERGY, LATENCY, ENERGY|LATENCY, "
     "ENERGY_DELAY_PRODUCT with eval_in_detail on, and one drawn combination (those four or E|L|EDP) with eval_in_detail "
     "off. Oracle: feasibility is the same for all runs; min E over the E|L front == opt(E); min L over the front == "
@@ -32,6 +35,39 @@ EXTRA = METRICS + ["ENERGY|LATENCY|ENERGY_DELAY_PRODUCT"]
 @st.composite
 def cases(draw):
     spec = draw(MM.small_specs(shapes=("matmul", "chain2", "chain2", "matvec", "elementwise2")))
+    return {"spec": spec, "nodetail": draw(st.sampled_from(EXTRA))}
+
+
+@st.composite
+def balanced_cases(draw):
+    """One or two matmuls on Main -> bypassable GLB -> MAC where reads and writes of Main cost very different energy,
+    Main is fast and the GLB slow: holding a tensor in the GLB saves energy and costs time per tensor, so the
+    energy-latency front has several points and its best energy x latency product is often an INTERIOR point
+    (the plain families almost always have it at the latency corner)."""
+    from vf.gen import spec as G
+
+    two = draw(st.integers(0, 3)) == 0
+    es, rvs = G.chain(2) if two else G.matmul_ab()
+    pool = [2, 3, 4] if two else [4, 6, 6, 8, 8]
+    bounds = {rv: draw(st.sampled_from(pool)) for rv in rvs}
+    bits = draw(st.sampled_from([4, 8]))
+    wl = {"einsums": es, "bounds": bounds}
+    sizes = G.tensor_sizes(wl)
+    big, tot = max(sizes.values()), sum(sizes.values())
+    vals = draw(st.sampled_from([max(4, big // 4), max(4, big // 3), max(4, big // 2), big, tot // 2, "inf"]))
+    dear, cheap = draw(st.sampled_from([32, 64, 100])), draw(st.sampled_from([2, 4, 8]))
+    rd, wr = (cheap, dear) if draw(st.booleans()) else (dear, cheap)
+    main_bw = draw(st.sampled_from([16, 32, 64]))
+    glb_bw = draw(st.sampled_from([2, 4, 8]))
+    nodes = [{"type": "Memory", "name": "Main", "size": "inf", "keep": "~Intermediates" if two else "All", "may_keep": "All",
+              "read": [rd, main_bw], "write": [wr, main_bw], "leak": 0},
+             {"type": "Memory", "name": "GLB", "size": "inf" if vals == "inf" else vals * bits + bits / 2,
+              "keep": "~Main" if two else "Nothing", "may_keep": "All",
+              "read": [draw(st.sampled_from([1, 2])), glb_bw], "write": [draw(st.sampled_from([1, 2])), glb_bw],
+              "leak": draw(st.sampled_from([0, 0, 0.125]))},
+             {"type": "Compute", "name": "MAC", "compute": [draw(st.sampled_from([1, 4])), draw(st.sampled_from([1, 2, 4]))], "leak": 0}]
+    spec = {"shape": "chain2" if two else "matmul", "einsums": es, "bounds": bounds, "bits": {"All": bits}, "n_instances": 1,
+            "nodes": nodes, "mapper": {}, "family": "balanced"}
     return {"spec": spec, "nodetail": draw(st.sampled_from(EXTRA))}
 
 
@@ -56,7 +92,7 @@ def check(desc, col):
     nd = MM.run(spec, metrics=nd_metrics, eval_in_detail=False)
     feas = {m: r.feasible for m, r in runs.items()}
     feas["nodetail:" + nd_metrics] = nd.feasible
-    labels = MM.shape_labels(spec) + [f"nodetail:{nd_metrics}"]
+    labels = MM.shape_labels(spec) + [f"nodetail:{nd_metrics}", f"family:{spec.get('family', 'plain')}"]
     if not any(feas.values()):
         col.case(spec, False, labels + ["infeasible"])
         return
@@ -103,15 +139,16 @@ def check(desc, col):
         _eq(b, ref, f"eval_in_detail=False metrics={nd_metrics}: best {name} vs optimum of the dedicated run", f"nodetail-{name}")
 
 
-N = {"quick": 24, "thorough": 320}
+N = {"quick": 48, "thorough": 480}
 
 
 def shards(tier, seed):
-    return MM.deal([{} for _ in range(N[tier])], tier, seed)
+    # two slots in three draw from the balanced family (interior EDP optimum), one from the plain small specs
+    return MM.deal([{"family": "plain" if i % 3 == 0 else "balanced"} for i in range(N[tier])], tier, seed)
 
 
 def run_shard(shard, col):
-    MM.run_slots(shard, col, "C17", lambda slot: cases(), check)
+    MM.run_slots(shard, col, "C17", lambda slot: balanced_cases() if slot.get("family") == "balanced" else cases(), check)
 
 
 def replay(desc, col):
